@@ -225,28 +225,37 @@ def grep_gate():
     return bad
 
 
-def prepare(prop, drivers=(), targets=None):
-    """Everything a check needs before running cases.  Returns dict with build status."""
+def prepare(prop, drivers=(), targets=None, model_targets=None):
+    """Everything a check needs before running cases.  Returns dict with build status.
+    model_targets: the Model/Gen .vo files the drivers are extracted from (default: all);
+    targets: the Proofs .vo files Props/<prop>.v requires (default: all)."""
     st = {"regen": [], "make_ok": False, "make_error": None, "drivers": {}, "props": None, "gate": []}
     with lock():
         try:
             st["regen"] = regen()
         except Exception as e:  # translator fails closed
-            st["make_error"] = {"stage": "translator", "msg": str(e)}
+            st["make_error"] = {"stage": "translator", "msg": str(e), "file": None, "line": None}
         # models + extraction first (they do not depend on proofs)
         try:
-            make(["Model/%s" % os.path.basename(p) + "o" for p in glob.glob(os.path.join(COQ, "Model", "*.v"))]
-                 + ["Gen/%s" % os.path.basename(p) + "o" for p in glob.glob(os.path.join(COQ, "Gen", "*.v"))])
+            if model_targets is None:
+                model_targets = (["Model/%s" % os.path.basename(p) + "o" for p in glob.glob(os.path.join(COQ, "Model", "*.v"))]
+                                 + ["Gen/%s" % os.path.basename(p) + "o" for p in glob.glob(os.path.join(COQ, "Gen", "*.v"))])
+            if model_targets:
+                make(model_targets)
             for d in drivers:
                 st["drivers"][d] = extract(d)
         except BuildError as e:
-            st["make_error"] = {"stage": e.stage, "msg": e.msg, "file": e.file, "line": e.line}
+            if st["make_error"] is None:
+                st["make_error"] = {"stage": e.stage, "msg": e.msg, "file": e.file, "line": e.line}
             return st
-        if st["make_error"] is None:
-            try:
-                make(targets)
-                st["make_ok"] = True
-            except BuildError as e:
+        try:
+            if targets is None:
+                make()
+            elif targets:
+                make(list(targets))
+            st["make_ok"] = True
+        except BuildError as e:
+            if st["make_error"] is None:
                 st["make_error"] = {"stage": e.stage, "msg": e.msg, "file": e.file, "line": e.line}
         st["gate"] = grep_gate()
         if st["make_ok"]:
